@@ -478,6 +478,40 @@ def rule_r10(ctx):
         raise AnalysisBroken("only %d writes of the reply routing state found" % n)
 
 
+# ---------------------------------------------------------------------------
+# R11: a reset leaves nothing of the previous exchange behind
+
+
+def rule_r11(ctx):
+    r = ctx.rule("C04.R11", "T2", "a reset leaves nothing of the previous exchange behind: in req0_ctx_reset, once a message field of the "
+                 "context (req_msg, rep_msg) has been found non-NULL, every path to the function's exit releases it and clears the "
+                 "field -- no further condition (which context it is, what the socket's state is) stands in between. The unread "
+                 "reply of a superseded request that survives the reset is delivered as the answer to the next request, and the "
+                 "genuine reply is discarded because the context 'already has one'", floor=1)
+    f = ctx.prog.need("req0_ctx_reset", "reqrep0/req.c")
+    n = 0
+    for fld in ("req_msg", "rep_msg"):
+        nz = G.nz_edges(f, lambda x, fld=fld: x.get("k") == "mem" and x["f"] == fld and x.get("rec") == "req0_ctx")
+        if not nz:
+            raise AnalysisBroken("req0_ctx_reset no longer tests ctx->%s" % fld)
+        frees = {(c.b, c.i) for c in f.calls("nni_msg_free") if c.node["args"] and
+                 any(m.get("k") == "mem" and m["f"] == fld for m in walk(f.expand(c.node["args"][0])))}
+        clears = {(t.b, t.i) for t in f.assigns() if t.node["lhs"].get("k") == "mem" and t.node["lhs"]["f"] == fld and is_null(f.expand(t.node["rhs"]))}
+        for b, k in sorted(nz.items()):
+            n += 1
+            start = (f.blocks[b].succs[k], 0)
+            o1 = G.must_pass(f, start, frees) if frees else start
+            o2 = G.must_pass(f, start, clears) if clears else start
+            if o1 is None and o2 is None:
+                r.ob(f, "%s found non-NULL: released and cleared on every path" % fld)
+            else:
+                ctx.fail(r, f, "ctx->%s survives the reset on some path" % fld, f.line_of(b, max(len(f.blocks[b].elems) - 1, 0)),
+                         "req0_ctx_reset finds ctx->%s set and can still return without releasing it (a further condition guards the "
+                         "release): what is left of the previous exchange is handed out as part of the next one" % fld)
+    if n < 2:
+        raise AnalysisBroken("req0_ctx_reset: message fields not tested")
+
+
 def run(ctx):
     ctx.guard(rule_r1)
     ctx.guard(rule_r2)
@@ -489,4 +523,5 @@ def run(ctx):
     ctx.guard(rule_r8)
     ctx.guard(rule_r9)
     ctx.guard(rule_r10)
+    ctx.guard(rule_r11)
     ctx.guard(rule_hops)
